@@ -123,7 +123,7 @@ CHECKS = {
         "extract": "C09", "driver": "c09",
         "runs": [{"subcmd": "recv", "shards_quick": 4, "shards_thorough": 16, "driver_args": ["c09"]}],
         "rule": "V lines: one whole session per line - a real Sender (No-Code, RS28, RS28-US, RaptorQ, Raptor; E 4..16, B 1..6, parity 0..2; content encodings; in-band / FDT-only FTI and CENC; both publish modes; interleave 1..3; 1..3 objects of 0..3 blocks incl. empty; transfer count 1..2; optional rewriting of the FDT instances to strip FEC-OTI or Transfer-Length attributes as a foreign sender would) produces the genuine packets, a channel transforms them (in order, permutation, subset, duplication, loss+duplication, payload bit flips, payload truncation, late join), a real Receiver with a scripted monitoring writer builder (StoreObject / ObjectAlreadyReceived / Abort per creation, open failing, write failing at call k) consumes them, with cleanup and receiver drop at arbitrary points; each case runs in a worker process with a watchdog (HANG) and an address-space limit. The extracted model is stepped on the parsed packets; per-event result, object counts and per-writer call sequences (consecutive writes merged) are compared. Non-trivial = at least one writer was created and the model did not abstain (FEC reconstruction / inflate oracle undefined); distinct = distinct session lines. Predicate: P_C09_writer on every writer's recorded calls (typestate open . write* . terminal?, writes a prefix of the content, complete only with the whole content, terminal call before drop).",
-        "level_text": 'Proved (Qed, closed) for EVERY history of receiver events (packets of any content and order, unparsable datagrams, cleanups, drop), every configuration and every behaviour of the writer builder, writers and decoders (oracles): the calls each writer receives form open . write* . at most one terminal call, nothing after it (C09_writer_protocol_full), and after the receiver is dropped every opened writer has had its terminal call (C09_drop_terminates_all_full); proof by an object invariant (automaton phase of the logged calls = writer state, terminated writer => object left the receiving state and holds no cache), a frame (calls go only to the own writer, writer ids are fresh) and its lifting to the receiver map (Proofs/C09Full.v). The same predicate is evaluated on the implementation's callbacks on every run.',
+        "level_text": 'Proved (Qed, closed) for EVERY history of receiver events (packets of any content and order, unparsable datagrams, cleanups, drop), every configuration and every behaviour of the writer builder, writers and decoders (oracles): the calls each writer receives form open . write* . at most one terminal call, nothing after it (C09_writer_protocol_full), and after the receiver is dropped every opened writer has had its terminal call (C09_drop_terminates_all_full); proof by an object invariant (automaton phase of the logged calls = writer state, terminated writer => object left the receiving state and holds no cache), a frame (calls go only to the own writer, writer ids are fresh) and its lifting to the receiver map (Proofs/C09Full.v). The same predicate is evaluated on the callbacks of the implementation on every run.',
         "explanation": "P_C09_writer on every writer's recorded calls (typestate open . write* . terminal?, writes a prefix of the content, complete only with the whole content, terminal call before drop).",
         "assumptions": ["FEC reconstruction (Reed-Solomon, RaptorQ, Raptor) is an oracle answered from the session's ground truth; the model abstains where it is undefined",
                         "inflate is an oracle (whole content once all transfer bytes are in); partial inflate output is not compared",
